@@ -93,13 +93,13 @@ theorem feats_label_partial (b : DBase) (stages : List Stage) (k : Key) (t : Opt
   feats_label_dense' b stages k t e0 e hb he
 
 /-- the hypothesis "LabelRows last" is necessary: `[1,2,3]`, label column 1, then `EncodeRows([+1,+1,+1])`:
-the row reads `[2,3,4]` and the eager label is 3, but the row has no `label` any more: with fixes/C13-stale-feats-label.diff a
-wrapper does not pass `feats`/`label` on (AttributeError) — before that repair it answered the stale 2 -/
+the row reads `[2,3,4]` but its label is still 2 (eager: 3): `__getattr__` forwards `label` to the inner LabelDense unchanged
+(recorded C13-F8; the proposed fixes/C13-stale-feats-label.diff was not applied, see notes/C13.md) -/
 theorem feats_label_counterexample :
     ∃ r e, buildD cexStages (baseD cexBase) = .ok (some r) ∧
       (match eagerBaseD cexBase with | .ok e0 => eagerD cexStages e0 | .error er => .error er) = .ok (some e) ∧
       r.iter = .ok e.cells ∧
-      r.labelVal = .error .attrError ∧ e.labelVal = some (.int 3) := feats_label_dense_cex'
+      r.labelVal = .ok (.int 2) ∧ e.labelVal = some (.int 3) := feats_label_dense_cex'
 
 /-- accessing a row in different ways or in a different order never changes what later accesses return:
 any history of accesses on one row object yields what the same accesses yield on fresh rows -/
@@ -210,13 +210,12 @@ theorem feats_label_sparse_partial (b : SBase) (stages : List Stage) (k : Key) (
   feats_label_sparse' b stages k t hs e0 e he0 he
 
 /-- "LabelRows last" is necessary for sparse rows too: `{0:1, 1:2}`, label key 1, then `EncodeRows({0:+1, 1:+1})`:
-the row reads `{0:2, 1:3}` and the eager label is 3, but the row has no `label` any more (AttributeError; the stale 2 before
-fixes/C13-stale-feats-label.diff)  (recorded C13-F9 / C13-F12) -/
+the row reads `{0:2, 1:3}` but its label is still 2 (eager: 3)  (recorded C13-F9) -/
 theorem feats_label_sparse_counterexample :
     ∃ r e, buildS cexStagesS (baseS cexBaseS) = .ok (some r) ∧
       (match eagerBaseS cexBaseS with | .ok e0 => eagerS cexStagesS e0 | .error er => .error er) = .ok (some e) ∧
       r.items = .ok e.d ∧
-      r.labelVal = .error .attrError ∧ e.labelVal = some (.int 3) := feats_label_sparse_cex'
+      r.labelVal = .ok (.int 2) ∧ e.labelVal = some (.int 3) := feats_label_sparse_cex'
 
 /-- the condition `k ∉ r.leak` of `sparse_get` is necessary: `LazySparse({0:7}, fwd={'a':0}, inv={0:'a'})`
 answers `row['a'] == 7` like the eager dict `{'a':7}`, but also `row[0] == 7` where the eager dict raises KeyError -/
@@ -306,5 +305,51 @@ theorem table_rows_are_pipelines (stages : List Stage) (rows out : List DRow) (h
 /-- the single-stage form: for a row that looks like the first row, `filter()` builds the wrapper the per-row model builds -/
 theorem first_row_stage (st : Stage) (f r : DRow) (h : sameShape f r = true) : applyD1 st f r = applyD st r :=
   applyD1_eq st f r h
+
+/-! ## the first dict of a sparse table
+
+On dict rows `LabelRows.filter` reads `first._inv` (to translate a positional label into its header name) and
+`EncodeCatRows.filter` reads the keys of the categoricals of the first dict and encodes exactly those keys in every dict.
+`tableS1` is that computation; `sameShapeS f r` (same `_inv`, categoricals at the same keys, the row's keys distinct and not
+clashing with the generated one-hot names `k_i`) is the decidable condition under which it is the per-row computation `buildS`
+the sparse theorems are about.  The driver reports `uniformRunS` per case. -/
+
+/-- on a uniform sparse table, looking at the first dict (the code) is the same as looking at each dict itself -/
+theorem first_row_irrelevant_sparse (stages : List Stage) (rows : List SBase)
+    (h : uniformRunS stages (rows.map baseS) = true) :
+    tableS1 stages rows = runStagesS0 stages (rows.map baseS) := runStagesS1_eq stages (rows.map baseS) h
+
+/-- … and that table consists of the rows `buildS` builds: every per-row sparse theorem applies to every row of the table -/
+theorem table_rows_are_pipelines_sparse (stages : List Stage) (rows out : List SRow) (h : runStagesS0 stages rows = .ok out) :
+    ∃ os, mapMRes (buildS stages) rows = .ok os ∧ out = os.filterMap id := runStagesS0_rows stages rows out h
+
+/-- the single-stage form -/
+theorem first_row_stage_sparse (st : Stage) (f r : SRow) (h : sameShapeS f r = true) : applyS1 st f r = applyS st r :=
+  applyS1_eq st f r h
+
+/-- `catset` at the categorical keys of the dict itself is the entry-by-entry encoding of the eager spec (`catEncodeDict`),
+when the keys are distinct and no generated name `k_i` is already a key -/
+theorem enccat_keys_of_own_dict (m : CatMode) (d : Dict) (hn : (d.map (·.1)).Nodup) (hc : noClash d = true) :
+    catEncodeAtD m (catKeysD d) d = .ok (catEncodeDict m d) := catEncodeAtD_self m d hn hc
+
+/-- the hypotheses are satisfiable: two dicts with the categorical at the same key -/
+example : uniformRunS [.enccat (some .onehot)]
+    ([SBase.plain [(.name "a", .cat "q" ["p", "q"]), (.name "b", .int 1)], SBase.plain [(.name "a", .cat "p" ["p", "q"]), (.name "b", .int 2)]].map baseS) = true := by
+  decide
+
+/-- jagged sparse tables are outside: (1) the second dict has its categorical at another key than the first: it passes through
+un-encoded (eager: encoded);  (2) the second dict lacks the key the first has as categorical: KeyError (eager: the dict unchanged);
+(3) the first dict has no header map but the second has `_inv = {1:'b'}`: `LabelRows(1)` labels it by the raw key 1 where the
+per-row pipeline takes the header name `'b'` -/
+theorem first_dict_counterexample :
+    (tableS1 [.enccat (some .string)] [.plain [(.name "a", .cat "p" ["p", "q"])], .plain [(.name "a", .str "x"), (.name "b", .cat "q" ["p", "q"])]]
+        = .ok [.plain [(.name "a", .str "p")], .plain [(.name "a", .str "x"), (.name "b", .cat "q" ["p", "q"])]] ∧
+      buildS [.enccat (some .string)] (baseS (.plain [(.name "a", .str "x"), (.name "b", .cat "q" ["p", "q"])]))
+        = .ok (some (.plain [(.name "a", .str "x"), (.name "b", .str "q")]))) ∧
+    (tableS1 [.enccat (some .string)] [.plain [(.name "a", .cat "p" ["p", "q"])], .plain [(.name "b", .int 1)]] = .error .keyError ∧
+      buildS [.enccat (some .string)] (baseS (.plain [(.name "b", .int 1)])) = .ok (some (.plain [(.name "b", .int 1)]))) ∧
+    (∃ r1 r2, applyS1 (.label (.pos 1) none) (.plain []) (.head (.plain [(.pos 1, .int 5)]) [(.name "b", .pos 1)] [(.pos 1, .name "b")]) = .ok (some r1) ∧
+      applyS (.label (.pos 1) none) (.head (.plain [(.pos 1, .int 5)]) [(.name "b", .pos 1)] [(.pos 1, .name "b")]) = .ok (some r2) ∧
+      r1.labelOf.map (·.2.1) = some (.pos 1) ∧ r2.labelOf.map (·.2.1) = some (.name "b")) := first_dict_cex'
 
 end Coba.C13
